@@ -342,6 +342,21 @@ func castRecordBatch(batch arrow.RecordBatch, targetSchema *arrow.Schema) (arrow
 			cols[i] = srcCol
 			continue
 		}
+		// The IPC reader does not validate a column's offsets against its
+		// value buffer, and the cast kernels trust them: on a corrupted
+		// variable-width column they slice out of range on a goroutine the
+		// compute executor spawns itself, where no recover of ours applies
+		// and the panic ends the process. Check the source column first; a
+		// corrupted one is a cast failure like any other.
+		if verr := array.ValidateFull(srcCol); verr != nil {
+			for j := range i {
+				cols[j].Release()
+			}
+			return nil, &RpcError{
+				Type:    "TypeError",
+				Message: fmt.Sprintf("Input schema mismatch: field %q is not a valid %s column: %v", targetSchema.Field(int(i)).Name, srcCol.DataType(), verr),
+			}
+		}
 		// NewDatum retains the column's data; release that reference once the
 		// kernel is done, or the source buffers stay pinned after the input
 		// batch itself has been released.
